@@ -89,7 +89,7 @@ theorem applyFilePatches_sim {fs : FS} {cfg : Cfg} {i : Nat} {entry : Series.Ent
       (∀ st' af', applyFilePatches st fs cfg i entry fps af = .ok (st', af') →
         ∃ t' ok' L, applyFPs fs cfg entry fps t ok rejs = .ok (t', ok', rejsOf L ++ rejs) ∧ af' = !ok' ∧
           SameTree fs (ofMem st'.mem) t' ∧ MemDE st'.mem ∧ st'.applied = L ++ st.applied ∧
-          (∀ s ∈ L, s.index = i) ∧ Undoable fs st.mem L st'.mem) ∧
+          (∀ s ∈ L, s.index = i) ∧ Chain fs st.mem L st'.mem) ∧
       (∀ e, applyFilePatches st fs cfg i entry fps af = .error e →
         applyFPs fs cfg entry fps t ok rejs = .error e) := by
   induction fps with
@@ -99,7 +99,7 @@ theorem applyFilePatches_sim {fs : FS} {cfg : Cfg} {i : Nat} {entry : Series.Ent
     · intro st' af' h
       unfold applyFilePatches at h
       cases h
-      exact ⟨t, ok, [], rfl, haf, hs, hde, rfl, fun s hs => (by cases hs), Undoable.nil (Ext.refl _ _)⟩
+      exact ⟨t, ok, [], rfl, haf, hs, hde, rfl, fun s hs => (by cases hs), Ext.refl _ _⟩
     · intro e h
       unfold applyFilePatches at h
       cases h
@@ -119,7 +119,7 @@ theorem applyFilePatches_sim {fs : FS} {cfg : Cfg} {i : Nat} {entry : Series.Ent
         obtain ⟨t', ok', L2, hfps, haf', hs', hde', happ2, hidx2, hundo2⟩ :=
           (ih st1 r.tree (af || !b) (ok && r.ok) (r.rej.toList ++ rejs)
             hs1 hde1 hwfps haf1).1 st' af' h
-        refine ⟨t', ok', L2 ++ L1, ?_, haf', hs', hde', ?_, ?_, Undoable.append hundo1 hundo2⟩
+        refine ⟨t', ok', L2 ++ L1, ?_, haf', hs', hde', ?_, ?_, Chain.append hundo1 hundo2⟩
         · rw [applyFPs_cons, hr]
           simp only
           rw [hfps, rejsOf_append, hrej1, List.append_assoc]
@@ -215,7 +215,7 @@ theorem applyLoop_sim (fs : FS) (cfg : Cfg) (range : List Series.Entry) :
                 simp only at happl hs1 hde1 hundo
                 subst happl
                 rw [rollback_eq k st.applied hidx L _ mem1 [] (by simp only [List.length_append]; omega) hidxL]
-                obtain ⟨M', hu, hext⟩ := hundo mem1 (Ext.refl _ _)
+                obtain ⟨M', hu, hext⟩ := hundo.undoable mem1 (Ext.refl _ _)
                 rw [hu]
                 simp only [List.nil_append]
                 exact ⟨trivial, trivial, fun _ => (Ext.sameTree hext).trans hs⟩
